@@ -77,6 +77,7 @@ type c09Case struct {
 	Pos       int       `json:"fail_after_n_responses"`
 	WriteMode string    `json:"write_side"` // fails | discards
 	GMP       int       `json:"gomaxprocs"`
+	ReadErr   string    `json:"read_error_kind"` // custom | io.EOF | wrapped-io.EOF | context.Canceled | wrapped-context.Canceled | DeadlineExceeded
 }
 
 func c09List(tier string, seed int64) []c09Case {
@@ -97,7 +98,27 @@ func c09List(tier string, seed int64) []c09Case {
 			}
 		}
 	}
+	kinds := []string{"custom", "io.EOF", "wrapped-io.EOF", "context.Canceled", "wrapped-context.Canceled", "DeadlineExceeded"}
+	for i := range out {
+		out[i].ReadErr = kinds[i%len(kinds)]
+	}
 	return out
+}
+
+func c09ReadErr(kind string) error {
+	switch kind {
+	case "io.EOF":
+		return io.EOF
+	case "wrapped-io.EOF":
+		return fmt.Errorf("read tcp: connection closed: %w", io.EOF)
+	case "context.Canceled":
+		return context.Canceled
+	case "wrapped-context.Canceled":
+		return fmt.Errorf("transport shut down: %w", context.Canceled)
+	case "DeadlineExceeded":
+		return context.DeadlineExceeded
+	}
+	return nil
 }
 
 type c09CallRun struct {
@@ -137,6 +158,7 @@ func c09Run(tier string, seed int64, idx int) *core.Result {
 	b := bed.New(bed.Opts{Cap: idx % 2 * 4, Serialise: idx%3 == 0})
 	cc := b.Conns[0]
 	end := b.Links[0].A
+	end.SetReadErr(c09ReadErr(c.ReadErr)) // however the transport words its failure, the calls must fail
 	gates := NewGates()
 
 	failNow := func() {
@@ -346,7 +368,7 @@ func c09Run(tier string, seed int64, idx int) *core.Result {
 				outcome = callerOutcome(r.cr.Rec)
 				gotSeq = r.cr.Rec.Recvd
 			}
-			success := outcome == nil || outcome == io.EOF
+			success := outcome == nil // a unary call succeeded iff Invoke returned nil (io.EOF from it is an error)
 			if r.spec.Kind != "unary" {
 				success = outcome == io.EOF
 				if outcome == nil {
@@ -385,6 +407,7 @@ func c09Run(tier string, seed int64, idx int) *core.Result {
 	res.Stat("calls", int64(len(all)))
 	res.Stat("positions_enumerated", 1)
 	res.SetAdd("timings", c.Timing+"/"+c.WriteMode)
+	res.SetAdd("read_error_kinds", c.ReadErr)
 	finish(tier, b, h, res)
 	return res
 }
@@ -393,7 +416,7 @@ func init() {
 	core.Register(&core.Prop{
 		ID:    "C09",
 		Level: "fault_enumeration",
-		Rule:  "for each scenario (quick 8 fixed, thorough 60 incl. seeded random mixes of unary / client- / server- / bidi-stream calls) the client transport's read fails after EVERY prefix 0..L of the response envelope sequence, x write side {fails too, stays writable and discards}; plus per scenario and write mode: a call parked by a rendezvous hook between the failure check and its registration while the failure and registry sweep happen (unary and stream), and calls started after the failure is recorded. Every case is a distinct (scenario, position, mode, timing) tuple and non-trivial (a fault is injected in each).",
+		Rule:  "for each scenario (quick 8 fixed, thorough 60 incl. seeded random mixes of unary / client- / server- / bidi-stream calls) the client transport's read fails after EVERY prefix 0..L of the response envelope sequence, x write side {fails too, stays writable and discards} x read error kind {custom, io.EOF, wrapped io.EOF, context.Canceled, wrapped context.Canceled, DeadlineExceeded} (cycled over the cases); plus per scenario and write mode: a call parked by a rendezvous hook between the failure check and its registration while the failure and registry sweep happen (unary and stream), and calls started after the failure is recorded. Every case is a distinct (scenario, position, mode, timing) tuple and non-trivial (a fault is injected in each).",
 		Plan:  func(tier string, seed int64) int { return len(c09List(tier, seed)) },
 		Run:   c09Run,
 		Exhaustive: func(string) bool { return true },
